@@ -146,6 +146,16 @@ class Engine(CoreMixin, ExprMixin, CallMixin, StmtMixin, SpecMixin):
             for p in params:
                 if spec_from_ctype(getattr(p, 'ctype', None) or '') == 'real' or c.sorts.get(p.arg) == 'real':
                     st.locals[p.arg] = z3.FP(p.arg, z3.Float64())
+        if 'loop_body' in c.flags:
+            for nm, spec in c.sorts.items():
+                if nm not in st.locals:
+                    if isinstance(spec, (tuple, list)):
+                        st.locals[nm] = self.python_param(nm, spec)
+                    else:
+                        v = self.sym_for_spec(nm, spec.rstrip('!'), fresh=False)
+                        st.locals[nm] = v
+                        if isinstance(v, Obj) and spec.endswith('!'):
+                            st.pc.append(v.ref != NONE)
         entry = st.copy()
         sframe = self.spec_frame(fr, st, entry)
         for ax in c.axioms:
@@ -156,7 +166,19 @@ class Engine(CoreMixin, ExprMixin, CallMixin, StmtMixin, SpecMixin):
         # vacuity guard: the precondition must be satisfiable
         cov = Obligation('%s/%s/cover.requires' % (c.prop, c.label), self.hyps(st), None, expect_sat=True)
         self.obligs.append(cov)
-        outs = self.exec_block(fn.body, st, fr)
+        body = fn.body
+        if 'loop_body' in c.flags:
+            # verify one arbitrary iteration of the loop with the given ordinal: the body is extracted mechanically, free
+            # names are symbolic values of the sorts declared in the contract (what is dropped: the statements around the loop)
+            target = [x for x in ast.walk(fn) if isinstance(x, (ast.For, ast.While)) and fr.loop_ord.get(id(x)) == c.flags['loop_body']]
+            if not target:
+                raise KeyError('loop %r of %s' % (c.flags['loop_body'], c.qualname))
+            body = target[0].body
+            self.notes.add('loop %r of %s verified as an arbitrary iteration (statements around the loop are outside this contract)'
+                           % (c.flags['loop_body'], c.qualname))
+        outs = self.exec_block(body, st, fr)
+        if 'loop_body' in c.flags:
+            outs = [('normal' if k == 'continue' else k, s_, v_) for k, s_, v_ in outs]
         rep.paths = len(outs)
         npath = 0
         for kind, s, val in outs:
